@@ -122,7 +122,7 @@ def run(ctx):
         if f is None or not any('torch.nn' in str(b) for b in repo.mro(c)):
             continue
         for e in E.closure(f):
-            if 'self' in e.roots and e.kind == 'setattr':
+            if 'self' in e.owners and e.kind == 'setattr':
                 fwd_written.setdefault(e.name, []).append(e)
     ctx.count('forward-written attributes', len(fwd_written))
     if 'theta_alpha' not in fwd_written:
@@ -162,7 +162,7 @@ def run(ctx):
         return any(saved_restored(ctx, g, name) for g in cands)
 
     for w, f in obs:
-        effs = [e for e in E.closure(f) if e.roots & {'self', 'g:self', 'unknown', 'global'}]
+        effs = [e for e in E.closure(f) if e.owners & {'self', 'g:self', 'unknown', 'global'}]
         lbl = f'{w.name}.{f.name}'
         observed_state = observed_by_w[w.name]
         # ---- R18a ------------------------------------------------------------------------
@@ -270,7 +270,7 @@ def run(ctx):
                'stores the spec, then recomputes the cost-function map from it' if ok else
                'the cost-function map is not recomputed from the new specification: switching the '
                'specification and back does not restore the same cost', where(s))
-        extra = [e for e in E.closure(s) if e.roots & {'self'} and
+        extra = [e for e in E.closure(s) if e.owners & {'self'} and
                  e.name not in ('_cost_specification', '_cost_fn_map')]
         ctx.ob('R18d', f'{w.name}.cost_specification setter writes nothing else', not extra,
                'only the spec and its map are written' if not extra else
